@@ -211,6 +211,10 @@ def run_native(ob, args: dict) -> dict:
             if not rep:
                 out["reproduced"] = False
                 out["detail"] += "\nNOT reproduced through public replay: " + str(detail)[:2000]
+        except OB.HarnessDefect as e:
+            out["public_replay"] = {"reproduced": False, "detail": "HARNESS DEFECT: " + str(e)[:2500]}
+            out["reproduced"] = False
+            out["detail"] += "\nHARNESS DEFECT found by the replay: " + str(e)[:2000]
         except Exception:  # noqa: BLE001
             out["public_replay"] = {"reproduced": False, "detail": "replay raised:\n" + traceback.format_exc()[-2500:]}
             out["reproduced"] = False
@@ -237,6 +241,16 @@ def main():
 
             pts = ob.grid(OB.SEED) if ob.grid else []
             runs = [run_native(ob, p) for p in pts]
+            if ob.replay is not None:
+                # validation pass: the independent replay (second renderer / public API / external oracle) must agree on in-bound points
+                for r in runs:
+                    if r.get("pre_ok") and not r["reproduced"]:
+                        try:
+                            rep, detail = ob.replay(**r["args"])
+                            if rep:
+                                r.update(reproduced=True, detail="public replay fails although the harness passes: " + str(detail)[:1500])
+                        except OB.HarnessDefect as e:
+                            r.update(reproduced=True, detail="HARNESS DEFECT: " + str(e)[:1500])
             res = {"obligation": ob.name, "grid": len(runs), "skipped_pre": sum(1 for r in runs if not r.get("pre_ok")),
                    "failures": [r for r in runs if r["reproduced"]][:5], "samples": [r["args"] for r in runs if r.get("pre_ok")][:3]}
         elif ob.engine == "S":
